@@ -275,6 +275,15 @@ def m_c03(out) -> list[Violation]:
             if sp and sp.get("kind") in ("after", "on_failure"):
                 par = specs[sp["parent"]]
                 pend = [t for t in range(len(par.get("tasks", []))) if task_st.get((sp["parent"], t), "NOT_STARTED") not in COMPLETE]
+                if pend and sp.get("kind") == "on_failure":
+                    # an on-failure stage also follows a failure BEFORE the parent's own tasks: a before stage that halted
+                    # (the parent's tasks then never run), or a task that failed with later tasks left untouched
+                    sts = statuses_at(out, row["seq"])
+                    before_halted = any(sts.get(c) in ("TERMINAL", "STOPPED", "CANCELED") for c in kids.get((sp["parent"], "before"), []))
+                    task_failed = any(task_st.get((sp["parent"], t)) in ("TERMINAL", "STOPPED", "CANCELED", "FAILED_CONTINUE")
+                                      for t in range(len(par.get("tasks", []))))
+                    if before_halted or task_failed:
+                        pend = []
                 if pend:
                     vs.append(Violation(
                         what=f"after stage {ref} started while tasks {pend} of its parent {sp['parent']} were not complete",
@@ -309,8 +318,9 @@ def stuck_diagnosis(out) -> str:
     redirected = {p for p in parts if "REDIRECT" in p}
     if redirected:
         # the identity of the stale-REDIRECT findings (F10) is the task left REDIRECT in a RUNNING stage; the stages
-        # that merely wait for it (its parent, its siblings) are a consequence
-        parts = redirected
+        # that merely wait for it (its parent, its siblings) and the later tasks of the same stage (still NOT_STARTED)
+        # are a consequence
+        parts = {p.split("[")[0] + "[REDIRECT]" for p in redirected}
     if not parts:
         sts = {st["status"] for st in out["final"]["stages"]}
         parts = {"nothing-started" if sts == {"NOT_STARTED"} else
@@ -344,8 +354,11 @@ def m_c05(out) -> list[Violation]:
                 what=f"queue drained but workflow is {wf} with no stage waiting for a signal/resume; unfinished stages {stuck}",
                 signature="stuck:" + stuck_diagnosis(out), replay=_replay(out, {"final": fs})))
     else:
+        specs = spec_map(out)
+        top = {k: v for k, v in fs.items() if not specs.get(k, {}).get("parent")}     # the property speaks of top-level stages:
+        # a synthetic child's failure is absorbed (or not) by its parent's own failure policy
         if wf == "SUCCEEDED":
-            bad = {k: v for k, v in fs.items() if v not in CONTINUABLE}
+            bad = {k: v for k, v in top.items() if v not in CONTINUABLE}
             if bad:
                 # the STOPPED path of _determine_final_status (a stage stopped with failPipeline=false / a task
                 # returning STOPPED, nothing else incomplete) is a distinct, documented way to get here
@@ -355,7 +368,7 @@ def m_c05(out) -> list[Violation]:
                     else "succeeded-unsound:" + ",".join(sorted(set(bad.values())))
                 vs.append(Violation(what=f"workflow reported SUCCEEDED although stages {bad} did not finish in a continuable status",
                                     signature=sig, replay=_replay(out, {"final": fs})))
-        if "TERMINAL" in fs.values() and wf != "TERMINAL":
+        if "TERMINAL" in top.values() and wf != "TERMINAL":
             vs.append(Violation(what=f"a stage failed terminally but the workflow is reported {wf}", signature="failed-not-reported",
                                 replay=_replay(out, {"final": fs})))
         run = [k for k, v in fs.items() if v == "RUNNING"]
